@@ -300,4 +300,79 @@ def closeRun (stall : Bool) : List String → CloseObs → CloseObs
       closeRun stall rest { o with tgtClosed := true }
     else closeRun stall rest o
 
+/-! ### Re-attachment, concurrently
+
+Both copy goroutines and the re-attaching source end as one interleaving semantics.  `attach`
+installs the next source connection (`SetSourceConnection`) at any moment — also several times
+during one copy, in which case the connections in between are never read.  The source goroutine
+works on `sdir`, the copy from connection `now`; the bytes of the copies that already returned are
+in `doneBytes`.  The target goroutine writes through `dynamicSourceWriter`, i.e. to the connection
+installed when the write happens: `perSrc` has one entry per installed connection. -/
+
+structure RBridge where
+  lim : Limiter
+  past : List (List ReadEv) := []     -- connections before the one being copied (copied or skipped)
+  now : List ReadEv                   -- script of the connection the source goroutine copies from
+  inst : List (List ReadEv) := []     -- connections installed since; the last one is the installed forwarder
+  future : List (List ReadEv)         -- connections that will attach later
+  sdir : Dir                          -- the running CopyWithControl of the source goroutine
+  doneBytes : Bytes := []             -- delivered to the target by the copies that returned
+  doneCount : Nat := 0                -- their contribution to the byte counter
+  sdone : Bool := false               -- the source goroutine has finished
+  tdir : Dir                          -- target → source
+  perSrc : List Bytes := [[]]         -- bytes received by each installed source connection
+  closed : Bool := false
+deriving DecidableEq, Repr
+
+inductive REv where
+  | s2t | t2s | attach
+deriving DecidableEq, Repr
+
+def RBridge.init (lim : Limiter) (g : List ReadEv) (gs : List (List ReadEv)) (tw : List WriteEv)
+    (tgt : List ReadEv) (sw : List WriteEv) : RBridge :=
+  { lim := lim, now := g, future := gs, sdir := ⟨g, tw, {}, none⟩, tdir := ⟨tgt, sw, {}, none⟩ }
+
+/-- All source connections, in attach order. -/
+def RBridge.gens (b : RBridge) : List (List ReadEv) := b.past ++ [b.now] ++ b.inst ++ b.future
+
+/-- What the target has received so far. -/
+def RBridge.toTarget (b : RBridge) : Bytes := b.doneBytes ++ b.sdir.st.delivered
+
+/-- Append `w` to the last entry (the installed connection's). -/
+def appendLast : List Bytes → Bytes → List Bytes
+  | [], w => [w]
+  | [x], w => [x ++ w]
+  | x :: y :: rest, w => x :: appendLast (y :: rest) w
+
+def RBridge.step (b : RBridge) : REv → RBridge
+  | .attach =>
+    match b.future with
+    | [] => b
+    | g :: f => { b with inst := b.inst ++ [g], future := f, perSrc := b.perSrc ++ [[]] }
+  | .t2s =>
+    { b with
+      tdir := b.tdir.step b.lim b.closed b.toTarget.length,
+      perSrc := appendLast b.perSrc
+        ((b.tdir.step b.lim b.closed b.toTarget.length).st.delivered.drop b.tdir.st.delivered.length),
+      closed := b.closed || (b.tdir.step b.lim b.closed b.toTarget.length).stop.isSome }
+  | .s2t =>
+    if b.sdone then b
+    else if (b.sdir.step b.lim b.closed b.tdir.st.delivered.length).stop.isSome then
+      -- this copy has returned: look at the installed forwarder again
+      match b.inst.getLast? with
+      | some g =>
+        if b.closed then
+          { b with sdir := b.sdir.step b.lim b.closed b.tdir.st.delivered.length, sdone := true, closed := true }
+        else
+          { b with
+            past := b.past ++ [b.now] ++ b.inst.dropLast, now := g, inst := [],
+            doneBytes := b.doneBytes ++ (b.sdir.step b.lim b.closed b.tdir.st.delivered.length).st.delivered,
+            doneCount := b.doneCount + (b.sdir.step b.lim b.closed b.tdir.st.delivered.length).st.counter,
+            sdir := ⟨g, (b.sdir.step b.lim b.closed b.tdir.st.delivered.length).writes, {}, none⟩ }
+      | none =>
+        { b with sdir := b.sdir.step b.lim b.closed b.tdir.st.delivered.length, sdone := true, closed := true }
+    else { b with sdir := b.sdir.step b.lim b.closed b.tdir.st.delivered.length }
+
+def RBridge.run (b : RBridge) (evs : List REv) : RBridge := evs.foldl RBridge.step b
+
 end Tunnox.C02
